@@ -2,7 +2,7 @@
 (* Property monitor for C03 over recordings with real etcd leases.  After every step: the owner  *)
 (* of the leader record read back from etcd, every member's Leadership.Check() and IsLeader(),    *)
 (* the result of a timestamp request to every member, and the stored values of the leader-guarded  *)
-(* targets (time window, member priority, id window, dc-location data).                           *)
+(* targets (time window, member priority, id window, dc-location data, encryption keys).                           *)
 EXTENDS Integers, Sequences, FiniteSets, TLC, Json
 Trace == ndJsonDeserialize("trace.ndjson")
 VARIABLES l, tr, down, bad
